@@ -26,6 +26,8 @@ observer("CircuitGraphBranch.get_nodes_at", params=dict(self=REF("CircuitGraphBr
                   "implies(depth == 1 and not self.empty_graph, len(result) >= 1)"])
 observer("CircuitGraphBranch.leaf_nodes", params=dict(self=REF("CircuitGraphBranch")), returns=SEQ(REF("GraphNode")), reads=["graph"],
          ensures=["len(result) >= 1",
+                  # the library's own definition of an empty graph: the only leaf is the root
+                  "self.empty_graph == (len(result) == 1 and result[0].is_root)",
                   "implies(not self.empty_graph, forall(result, lambda n: isinstance(n, OperationGraphNode) and "
                   "exists(self.get_node_iterator(), lambda m: m is n)))"])
 
